@@ -254,8 +254,9 @@ def real_sources(k0: bool, k1: bool, k2: bool, k3: bool, k4: bool, k5: bool, off
     if k >= len(REAL_SOURCES):
         return True
     from crosshair.tracers import NoTracing
+    offset = 2 if offset2 else 0
     with NoTracing():
-        return _real_source(REAL_SOURCES[k], 2 if offset2 else 0)
+        return _real_source(REAL_SOURCES[k], offset)
 
 
 def _real_source(code, offset):
